@@ -2,8 +2,9 @@
    Directives: exactly those of ExtrOcamlBasic; N, positive, nat, Z stay inductive. *)
 Require Extraction.
 Require ExtrOcamlBasic.
-From Pika Require Import Base.Conc Model.Sender Model.Handoff Model.SenderLedger.
+From Pika Require Import Base.Conc Model.Sender Model.Handoff Model.SenderLedger Model.HandoffLife.
 Extraction Language OCaml.
 Extraction "m.ml" sigs den sync_wait start_detached sends_done join_seq
   h_trace h_init h_locals w_trace w_init w_locals w_expected
-  ledger nouse_ok upto_term.
+  ledger nouse_ok upto_term
+  hl_trace hl_init hl_locals.
